@@ -20,6 +20,47 @@ def num(s):
 
 # (name, file, regex, converter, doc)
 PARAMS = [
+    ('sqrtExtraRounds', 'src/uint/sqrt.rs', r'while\s+i\s*<\s*Self::LOG2_BITS\s*\+\s*(\d+)', num,
+     'C20: Uint::sqrt runs LOG2_BITS + this many Newton rounds'),
+    ('sqrtExtraRoundsBoxed', 'src/uint/boxed/sqrt.rs', r'while\s+i\s*<\s*self\.log2_bits\(\)\s*\+\s*(\d+)', num,
+     'C20: BoxedUint::sqrt runs log2_bits() + this many Newton rounds'),
+    ('radixEncodingLimbsLarge', 'src/uint/encoding.rs', r'const\s+RADIX_ENCODING_LIMBS_LARGE\s*:\s*usize\s*=\s*(\d+)\s*;', num,
+     'C17: limb count of the large radix divisor / threshold of the recursive encoder'),
+    ('radixEncodingMin', 'src/uint/encoding.rs', r'const\s+RADIX_ENCODING_MIN\s*:\s*u32\s*=\s*(\d+)\s*;', num,
+     'C17: smallest supported radix'),
+    ('radixEncodingMax', 'src/uint/encoding.rs', r'const\s+RADIX_ENCODING_MAX\s*:\s*u32\s*=\s*(\d+)\s*;', num,
+     'C17: largest supported radix'),
+    # ---- C10: safegcd iteration formula and 62-bit limb geometry
+    ('safegcdLimbBits', 'src/modular/safegcd.rs', r'pub const LIMB_BITS: usize = (\d+);', num, 'C10: UnsatInt::LIMB_BITS'),
+    ('safegcdBoxedLimbBits', 'src/modular/safegcd/boxed.rs', r'pub const LIMB_BITS: usize = (\d+);', num, 'C10: BoxedUnsatInt::LIMB_BITS'),
+    ('safegcdIterMul', 'src/modular/safegcd.rs', r'fn iterations\(.*?\(\((\d+) \* d \+ addend\) / \d+\)', num, 'C10: iterations(): multiplier of the bit length'),
+    ('safegcdIterDiv', 'src/modular/safegcd.rs', r'fn iterations\(.*?\(\(\d+ \* d \+ addend\) / (\d+)\)', num, 'C10: iterations(): divisor'),
+    ('safegcdIterThreshold', 'src/modular/safegcd.rs', r'fn iterations\(.*?from_u32_lt\(d, (\d+)\)\.select_u32\(\d+, \d+\)', num, 'C10: iterations(): bit-length threshold below which the larger addend is used'),
+    ('safegcdIterAddGe', 'src/modular/safegcd.rs', r'fn iterations\(.*?from_u32_lt\(d, \d+\)\.select_u32\((\d+), \d+\)', num, 'C10: iterations(): addend when d >= threshold'),
+    ('safegcdIterAddLt', 'src/modular/safegcd.rs', r'fn iterations\(.*?from_u32_lt\(d, \d+\)\.select_u32\(\d+, (\d+)\)', num, 'C10: iterations(): addend when d < threshold'),
+    ('safegcdJumpSteps', 'src/modular/safegcd.rs', r'let \(mut steps, mut f, mut g\) = \((\d+),', num, 'C10: jump(): divsteps per batch'),
+    ('safegcdNlimbsPad', 'src/macros.rs', r'macro_rules! safegcd_nlimbs \{.*?\(\$bits \+ (\d+)\)\.div_ceil\(\d+\)', num, 'C10: safegcd_nlimbs!: extra bits'),
+    ('safegcdNlimbsDiv', 'src/macros.rs', r'macro_rules! safegcd_nlimbs \{.*?\(\$bits \+ \d+\)\.div_ceil\((\d+)\)', num, 'C10: safegcd_nlimbs!: bits per unsaturated limb'),
+    # --- C03: multiplication dispatch sizes and boxed Karatsuba thresholds
+    ('karaMulChain0', 'src/uint/mul/karatsuba.rs', r'impl_uint_karatsuba_multiplication!\(\s*(\d+)\s*,\s*\d+\s*,\s*\d+\s*,\s*\d+\s*,\s*\d+\s*\)', num, 'C03: fixed Karatsuba multiply macro chain, level 0 (largest full size)'),
+    ('karaMulChain1', 'src/uint/mul/karatsuba.rs', r'impl_uint_karatsuba_multiplication!\(\s*\d+\s*,\s*(\d+)\s*,\s*\d+\s*,\s*\d+\s*,\s*\d+\s*\)', num, 'C03: fixed Karatsuba multiply macro chain, level 1'),
+    ('karaMulChain2', 'src/uint/mul/karatsuba.rs', r'impl_uint_karatsuba_multiplication!\(\s*\d+\s*,\s*\d+\s*,\s*(\d+)\s*,\s*\d+\s*,\s*\d+\s*\)', num, 'C03: fixed Karatsuba multiply macro chain, level 2'),
+    ('karaMulChain3', 'src/uint/mul/karatsuba.rs', r'impl_uint_karatsuba_multiplication!\(\s*\d+\s*,\s*\d+\s*,\s*\d+\s*,\s*(\d+)\s*,\s*\d+\s*\)', num, 'C03: fixed Karatsuba multiply macro chain, level 3'),
+    ('karaMulChain4', 'src/uint/mul/karatsuba.rs', r'impl_uint_karatsuba_multiplication!\(\s*\d+\s*,\s*\d+\s*,\s*\d+\s*,\s*\d+\s*,\s*(\d+)\s*\)', num, 'C03: fixed Karatsuba multiply macro chain, level 4 (schoolbook base)'),
+    ('karaSqChain0', 'src/uint/mul/karatsuba.rs', r'impl_uint_karatsuba_squaring!\(\s*(\d+)\s*,\s*\d+\s*,\s*\d+\s*\)', num, 'C03: fixed Karatsuba squaring macro chain, level 0'),
+    ('karaSqChain1', 'src/uint/mul/karatsuba.rs', r'impl_uint_karatsuba_squaring!\(\s*\d+\s*,\s*(\d+)\s*,\s*\d+\s*\)', num, 'C03: fixed Karatsuba squaring macro chain, level 1'),
+    ('karaSqChain2', 'src/uint/mul/karatsuba.rs', r'impl_uint_karatsuba_squaring!\(\s*\d+\s*,\s*\d+\s*,\s*(\d+)\s*\)', num, 'C03: fixed Karatsuba squaring macro chain, level 2 (schoolbook base)'),
+    ('splitMulDispatch0', 'src/uint/mul.rs', r'fn split_mul<.*?if LIMBS == RHS_LIMBS \{\s*if LIMBS == (\d+) \{', num, 'C03: Uint::split_mul dispatches to UintKaratsubaMul at this limb count (1st test)'),
+    ('splitMulDispatch1', 'src/uint/mul.rs', r'fn split_mul<.*?if LIMBS == RHS_LIMBS \{(?:\s*if LIMBS == \d+ \{.*?\}){1}\s*if LIMBS == (\d+) \{', num, 'C03: Uint::split_mul dispatch size (2nd test)'),
+    ('splitMulDispatch2', 'src/uint/mul.rs', r'fn split_mul<.*?if LIMBS == RHS_LIMBS \{(?:\s*if LIMBS == \d+ \{.*?\}){2}\s*if LIMBS == (\d+) \{', num, 'C03: Uint::split_mul dispatch size (3rd test)'),
+    ('splitMulDispatch3', 'src/uint/mul.rs', r'fn split_mul<.*?if LIMBS == RHS_LIMBS \{(?:\s*if LIMBS == \d+ \{.*?\}){3}\s*if LIMBS == (\d+) \{', num, 'C03: Uint::split_mul dispatch size (4th test)'),
+    ('squareWideDispatch0', 'src/uint/mul.rs', r'fn square_wide\(&self\) -> \(Self, Self\) \{\s*if LIMBS == (\d+) \{', num, 'C03: Uint::square_wide dispatches to UintKaratsubaMul::square at this limb count (1st test)'),
+    ('squareWideDispatch1', 'src/uint/mul.rs', r'fn square_wide\(&self\) -> \(Self, Self\) \{\s*if LIMBS == \d+ \{.*?\}\s*if LIMBS == (\d+) \{', num, 'C03: Uint::square_wide dispatch size (2nd test)'),
+    ('karatsubaMinStartingLimbs', 'src/uint/mul/karatsuba.rs', r'pub const KARATSUBA_MIN_STARTING_LIMBS: usize = (\d+);', num, 'C03: BoxedUint::mul uses karatsuba_mul_limbs when min(nlimbs) >= this; BoxedUint::square when nlimbs >= 2x this'),
+    ('karatsubaMaxReduceLimbs', 'src/uint/mul/karatsuba.rs', r'pub const KARATSUBA_MAX_REDUCE_LIMBS: usize = (\d+);', num, 'C03: karatsuba_mul_limbs falls back to adc_mul_limbs when even-floored overlap <= this; karatsuba_square_limbs to schoolbook when size <= 2x this'),
+    ('boxedSquareStartFactor', 'src/uint/boxed/mul.rs', r'if self\.nlimbs\(\) >= KARATSUBA_MIN_STARTING_LIMBS \* (\d+) \{', num, 'C03: factor in BoxedUint::square threshold'),
+    ('karaSquareReduceFactor', 'src/uint/mul/karatsuba.rs', r'if size <= KARATSUBA_MAX_REDUCE_LIMBS \* (\d+) \|\| \(size & 1\) == 1 \{', num, 'C03: factor in karatsuba_square_limbs fallback threshold'),
+    # -- more entries are appended above this line by the integrator
 ]
 
 def main():
